@@ -836,6 +836,8 @@ def gen_grid(g):
         m = r.choice([1, 2, 5, 25, 35, 125]) if g.chance(0.4) else r.randint(1, 999)
         e = r.randint(0, 4)
         n = r.randint(2, g.cfg.get('grid_n_max', 120))
+        if g.chance(0.004):
+            n = r.randint(1001, 2300)          # a long run
         dt_dec = Decimal(_dec_str(m, e))
         dt = float(dt_dec)
         op = {'op': 'run', 'dt': [dt, u], 'n': n, 'control': False,
@@ -885,6 +887,8 @@ def gen_grid(g):
             sched.append({'op': 'reset', 'reapply': True})
         sched.append(op)
     scn['schedule'] = sched
+    if any(o['op'] == 'run' and o['n'] > 1000 for o in sched):
+        scn['wall'] = 120.0
     # F-STOP: an encoder threshold somewhere along the way
     if g.chance(0.3):
         total = sum(run_T_si(o) for o in runs)
@@ -949,6 +953,19 @@ def gen_sched(g):
             op = gen_run(g, k, kdt=g.logu(0.02, 1.2), unit=r.choice(units))
             first = first + [op]
         scn['schedule'] = first
+    if g.chance(0.25):
+        # a query between (or after) the runs: exporting or taking a snapshot
+        # must not disturb a continuation or a repetition
+        if g.chance(0.6):
+            q_op = {'op': 'export', 'units': out_units(g, export=True),
+                    'fault': None}
+        else:
+            q_op = {'op': 'snapshot',
+                    'at': [r.random(), round(r.uniform(0.02, 0.98), 3),
+                           r.choice(si.units_of('Time'))],
+                    'units': out_units(g), 'vars': None, 'as_interval': False}
+        scn['schedule'] = list(scn['schedule'])
+        scn['schedule'].insert(r.randint(1, len(scn['schedule'])), q_op)
     add_control(g, scn, model, chain, p=0.6, uniform=(mode == 'split'),
                 kinds=r.choice([['Scripted'], ['Scripted'], ['ConstantPWM'],
                                 ['ConstantPWM', 'ConstantPWM']]))
@@ -991,6 +1008,12 @@ def _stop_base(g):
                            overload=r.choice([0.3, 0.8, 1.2, 3]))
     scn['init'] = gen_init(g, model, chain)
     sched = [gen_run(g, k)]
+    if g.chance(0.012):
+        # a long run (thousands of steps): anything the solver does in
+        # blocks, batches or with growing lists shows only here
+        sched = [gen_run(g, k, n=r.randint(1001, 2300),
+                         kdt=g.logu(0.002, 0.02))]
+        scn['wall'] = 120.0
     if g.chance(0.5):
         sched.append(gen_run(g, k))
     if g.chance(0.15):
@@ -1156,6 +1179,21 @@ def gen_query(g, profile='query'):
             sched.append({'op': 'reset', 'reapply': g.chance(0.6)})
             if g.chance(0.8):
                 sched.append(gen_run(g, k, solver=r.choice(['same', 'new'])))
+    if len(sched) >= 2 and g.chance(0.35):
+        # queries in the middle of a history: whatever an export or a
+        # snapshot leaves behind meets the next run / reset
+        mid = []
+        if g.chance(0.7):
+            mid.append({'op': 'export', 'units': out_units(g, export=True),
+                        'fault': None})
+        if g.chance(0.5) or not mid:
+            mid.append({'op': 'snapshot',
+                        'at': [r.random(),
+                               0 if g.chance(0.5) else round(r.uniform(0.02, 0.98), 3),
+                               r.choice(si.units_of('Time'))],
+                        'units': out_units(g), 'vars': None,
+                        'as_interval': False})
+        sched[1:1] = mid
     scn['schedule'] = sched
     add_control(g, scn, model, chain, p=0.4)
     if g.chance(0.3):
